@@ -5,6 +5,7 @@ package main
 // engine is built with the same toolchain as the code under test).
 
 import (
+	"crypto/sha1"
 	"fmt"
 	"hash/crc32"
 	"go/types"
@@ -210,6 +211,24 @@ func registerStdlib(g *Engine) {
 		}
 		return StringVal{opq: true}
 	}
+	xorBytes := func(e *Exec, fn *ssa.Function, a []Value) Value {
+		d, x, y := a[0].(SliceVal), a[1].(SliceVal), a[2].(SliceVal)
+		n := x.len
+		if y.len < n {
+			n = y.len
+		}
+		if d.len < n {
+			panic(e.panicEnd("subtle.XORBytes: dst too short"))
+		}
+		xb, yb := e.bytesOfSlice(x), e.bytesOfSlice(y)
+		dl := d.locs()
+		for i := 0; i < n; i++ {
+			dl[i].v = e.tb.Bin(OXor, xb[i], yb[i])
+		}
+		return e.tb.Const(64, uint64(n))
+	}
+	ic["crypto/subtle.XORBytes"] = xorBytes
+	ic["github.com/pion/transport/v4/utils/xor.XorBytes"] = xorBytes
 	ic["errors.Is"] = func(e *Exec, fn *ssa.Function, a []Value) Value {
 		return e.tb.Bool(e.errorsIs(a[0].(IfaceVal), a[1].(IfaceVal), 0))
 	}
@@ -273,3 +292,5 @@ func (e *Exec) symIndex(s, sub StringVal) *Node {
 var _ = fmt.Sprintf
 
 func crc32IEEE(b []byte) uint32 { return crc32.ChecksumIEEE(b) }
+
+func sha1sum(b []byte) [20]byte { return sha1.Sum(b) }
